@@ -310,3 +310,41 @@ func vNonLineEntries(sessions []robust.Id, rev uint64) []VEntry {
 	}
 	return es
 }
+
+// vFocusedLines is the mutator sub-alphabet of the deep BFS tier: the lines that move membership,
+// privileges, nicknames and channel state, without parameter noise.
+func vFocusedLines() []VLine {
+	var ls []VLine
+	for _, d := range []string{
+		"JOIN #c", "JOIN #d", "JOIN #c key", "JOIN #c,#d", "PART #c", "PART #d",
+		"KICK #c a", "KICK #c b", "KICK #c c", "KICK #d b", "KICK #c A2",
+		"MODE #c +o a", "MODE #c -o a", "MODE #c +o b", "MODE #c -o b", "MODE #c +o c", "MODE #c +i", "MODE #c -i", "MODE #c +k key", "MODE #c -k",
+		"MODE #c +b b!*@*", "MODE #c -b b!*@*", "MODE #c +s", "MODE #c -n", "MODE #c -t", "MODE #d +o a", "MODE #d +i",
+		"NICK A2", "NICK a2", "NICK a", "NICK b", "NICK c", "NICK B",
+		"INVITE a #c", "INVITE b #c", "INVITE c #c", "INVITE a #d", "INVITE c #d",
+		"TOPIC #c :t", "TOPIC #c :", "PRIVMSG #c :x", "PRIVMSG #d :x", "PRIVMSG b :x", "PRIVMSG a :x",
+		"QUIT :bye", "OPER root operpw", "KILL b :x", "KILL c :x", "AWAY :gone", "AWAY", "MODE a +i", "MODE b +G", "USER u2 0 * :r2",
+	} {
+		ls = append(ls, VLine{Data: d, Tag: "focused"})
+	}
+	return ls
+}
+
+func vFocusedServiceLines(pseudo []string) []VLine {
+	var ls []VLine
+	srv := "services.robustirc.net"
+	ds := []string{
+		"SVSNICK a guest1 :1", "SVSNICK b guest2 :1", ":" + srv + " SVSJOIN a #c", ":" + srv + " SVSJOIN b #d", ":" + srv + " SVSJOIN c #c",
+		":" + srv + " SVSPART a #c", ":" + srv + " SVSPART b #c", ":" + srv + " SVSPART b #d", "SVSMODE a +r", "SVSHOLD a2 60 :held",
+		"NICK OperServ 1 1422134861 services robustirc.net " + srv + " 0 :Oper Services", "QUIT :link closing",
+	}
+	for _, p := range pseudo {
+		pre := ":" + p + " "
+		ds = append(ds, pre+"JOIN #c", pre+"JOIN #d", pre+"PART #c", pre+"PART #d", pre+"KICK #c a :x", pre+"KICK #c b :x", pre+"KILL a :x", pre+"KILL b :x",
+			pre+"MODE #c +o a", pre+"MODE #c -o a", pre+"MODE #c +i", pre+"INVITE c #c", pre+"PRIVMSG #c :x", pre+"QUIT :bye", pre+"TOPIC #c "+p+" 1 :st")
+	}
+	for _, d := range ds {
+		ls = append(ls, VLine{Data: d, Tag: "focused"})
+	}
+	return ls
+}
